@@ -8,11 +8,12 @@ use schemars::JsonSchema;
 use serde::de::{self, Deserializer, MapAccess, Visitor};
 use serde::{Deserialize, Serialize};
 
-#[cfg(feature = "verif-hooks")]
-use crate::verif_hooks::VecSet as HashSet;
 #[cfg(not(feature = "verif-hooks"))]
 use std::collections::HashSet;
 use std::fmt;
+
+#[cfg(feature = "verif-hooks")]
+use crate::verif_hooks::VecSet as HashSet;
 
 // NB StopBy's JsonSchema is changed in xtask/schema.rs
 // revise schema is easier than manually implementation
